@@ -109,4 +109,14 @@ def firstViolation (out : Option String) : Nat → List Op → Option Nat
   | _, [] => none
   | n, op :: ops => if op.allowed out then firstViolation out (n + 1) ops else some n
 
+/-- argparse options of the command-line tools: (file, function, option strings, required, default, nargs) -/
+abbrev CliArg := String × String × String × String × String × String
+
+/-- the output of the decrypt tool is named by the user: `--output` is a required option without a default, and
+    nothing else gives the parsed arguments a value (no `set_defaults`, no assignment to `args.…`) -/
+def outputNamedByUser (t : List CliArg) : Bool :=
+  t.any (fun a => a.1 = "tools/envelope.py" && a.2.2.1 = "-o|--output" && a.2.2.2.1 = "True" && a.2.2.2.2.1 = "") &&
+  t.all (fun a => a.2.2.1 ≠ "set_defaults" && !("assign:".toList.isPrefixOf a.2.2.1.toList)) &&
+  (t.filter (fun a => a.2.2.1 = "-o|--output")).length = 1
+
 end Hv.Effects
